@@ -82,13 +82,6 @@ def parseMap (s : String) : Option (List (Nat × Nat)) :=
     | [a, b] => do pure (← a.toNat?, ← b.toNat?)
     | _ => none
 
-inductive COp
-  | replace (batch : List (Nat × Bool))
-  | begin
-  | done (i : Nat)
-  | gc (sids : List Nat)
-  deriving Repr
-
 /-- `R1:1+2:0` (key:1 = new searcher, key:0 = nil), `S`, `E3`, `G4+5` / `G-` -/
 def parseCOp (s : String) : Option COp :=
   match s.toList with
@@ -106,28 +99,18 @@ def parseCOp (s : String) : Option COp :=
     if body == "-" then some (.gc []) else ((body.splitOn "+").mapM fun (e : String) => e.toNat?).map .gc
   | _ => none
 
-/-- run the ops on the small-step model; output per op -/
+/-- run the ops on the small-step model (`COp.acts`); output per op -/
 def cowRun : CState → List COp → List String
   | _, [] => []
   | s, op :: rest =>
-    match op with
-    | .replace batch =>
-      let acts := [CAct.replaceBegin batch] ++ (if batch.isEmpty then [] else batch.map (fun _ => CAct.replaceKey) ++ [CAct.replaceStore])
-      match crun s acts with
-      | some s' => showMap s'.ranked :: cowRun s' rest
-      | none => "!" :: cowRun s rest
-    | .begin =>
-      match cstep s .searchBegin with
-      | some s' => showMap s.ranked :: cowRun s' rest
-      | none => "!" :: cowRun s rest
-    | .done i =>
-      match cstep s (.searchEnd i) with
-      | some s' => "-" :: cowRun s' rest
-      | none => "!" :: cowRun s rest
-    | .gc sids =>
-      match crun s (sids.map .finalize) with
-      | some s' => "-" :: cowRun s' rest
-      | none => "!" :: cowRun s rest
+    match crun s op.acts with
+    | none => "!" :: cowRun s rest
+    | some s' =>
+      let out := match op with
+        | .replace _ => showMap s'.ranked
+        | .begin => showMap s.ranked
+        | _ => "-"
+      out :: cowRun s' rest
 
 def toObs : List COp → List String → Option (List CObs)
   | [], [] => some []
